@@ -1,22 +1,31 @@
 #!/bin/bash
-# usage: tools/verify_seeded.sh <ID> <mN> <patch> <demo> <notes>
-# Confirms in the scratch worktree /tmp/mutv (HEAD of /repo): patch applies, the test-suite passes with it,
+# usage: [WT=/tmp/mutv] tools/verify_seeded.sh <ID> <mN> <patch> <demo> <notes>
+# Confirms in a scratch worktree at /repo's HEAD: the patch applies, the test-suite passes with it,
 # the demo fails with it and passes without it; then stores it under /verif/seeded/<ID>-<mN>/.
 set -u
-ID=$1; M=$2; PATCH=$3; DEMO=$4; NOTES=$5
-WT=/tmp/mutv
-cd $WT && git reset -q --hard && git clean -qfd
+ID=$1; M=$2; PATCH=$(readlink -f "$3"); DEMO=$(readlink -f "$4"); NOTES=$(readlink -f "$5")
+WT=${WT:-/tmp/mutv}
+HEAD=${BASE:-$(git -C /repo rev-parse --short HEAD)}
+[ -d $WT ] || git -C /repo worktree add -q --detach $WT HEAD
+cd $WT && git reset -q --hard && git clean -qfd && git checkout -q --detach $HEAD
 git apply "$PATCH" || { echo "$ID $M: patch does not apply"; exit 1; }
 T=$(/venv/bin/python -m pytest -q -p no:cacheprovider -x 2>&1 | tail -1)
-timeout 300 /venv/bin/python "$DEMO" > /tmp/demo_with.txt 2>&1; RC_WITH=$?
+O=$(mktemp -d)
+timeout 300 /venv/bin/python "$DEMO" > $O/with.txt 2>&1; RC_WITH=$?
 git reset -q --hard
-timeout 300 /venv/bin/python "$DEMO" > /tmp/demo_without.txt 2>&1; RC_WITHOUT=$?
+timeout 300 /venv/bin/python "$DEMO" > $O/without.txt 2>&1; RC_WITHOUT=$?
 echo "$ID $M: tests[$T] demo_with=$RC_WITH demo_without=$RC_WITHOUT"
+RC=1
 if echo "$T" | grep -q "214 passed, 6 xpassed" && [ $RC_WITH -ne 0 ] && [ $RC_WITHOUT -eq 0 ]; then
   D=/verif/seeded/$ID-$M
   mkdir -p $D
-  cp "$PATCH" $D/patch.diff; cp "$DEMO" $D/demo.py; cp "$NOTES" $D/notes.md
-  echo "{\"tests\": \"$T\", \"demo_with_rc\": $RC_WITH, \"demo_without_rc\": $RC_WITHOUT}" > $D/.verify.json
-  exit 0
+  [ "$PATCH" = "$D/patch.diff" ] || cp "$PATCH" $D/patch.diff
+  [ "$DEMO" = "$D/demo.py" ] || cp "$DEMO" $D/demo.py
+  [ "$NOTES" = "$D/notes.md" ] || cp "$NOTES" $D/notes.md
+  echo "{\"base\": \"$HEAD\", \"tests\": \"$T\", \"demo_with_rc\": $RC_WITH, \"demo_without_rc\": $RC_WITHOUT}" > $D/.verify.json
+  RC=0
+else
+  tail -5 $O/with.txt | sed 's/^/   with: /'; tail -5 $O/without.txt | sed 's/^/   without: /'
 fi
-exit 1
+rm -rf $O
+exit $RC
